@@ -50,7 +50,7 @@ Proof. vm_compute. reflexivity. Qed.
 (* is_running as found: now + duration = 2^64 exactly gives expire_time 0 = "not running" while pending *)
 Lemma is_running_as_found_refuted :
   let st := run as_found [] init0 [Cb (CAdd 2 (two64 - 1000) 1 7)] in
-  is_running st (nth 0 (issued st) 0) = 0 /\ ents (heap st) <> [].
+  is_running as_found st (nth 0 (issued st) 0) = 0 /\ ents (heap st) <> [].
 Proof. vm_compute. split; [reflexivity|discriminate]. Qed.
 
 (* ---- non-vacuity: a heap of 7 timers with equal keys, deletions of root / middle / last, expiry *)
@@ -84,3 +84,26 @@ Lemma ex_run_events :
   In (EFire 1 1 1000 3000000 50001013 50001017) (out st) /\
   In (EDecide 50 1012 3001000 4 1) (out st) /\ In (EDecide 5 50001023 52001017 4 0) (out st).
 Proof. vm_compute. tauto. Qed.
+
+(* (4) C08 clause met by the C09 invariants: the never-issued handle value 1 (check half 0, slot 1) passed to
+   qb_loop_timer_del from inside the callback of the timer in slot 1 is accepted without
+   fixes/C08-timer-del-forged-handle.patch (the other three repairs applied): the timer added next reuses the slot,
+   timer_dispatch then marks it EMPTY - a heap entry whose slot is EMPTY - and when it expires
+   assert(t->state == QB_POLL_ENTRY_ACTIVE) of make_job_from_tmo fails (err) *)
+Definition fx_without_chk0 : fixes := mkFx true true true false.
+Definition w_forged_beh : behaviour := [(2, [CDel (RLit 1); CAdd 0 5000000 4 104])].
+Definition w_forged : list op :=
+  [Cb (CAdd 2 1000000000000 1 101); Cb (CAdd 0 1000000 2 102); Cb (CTick 2000000); Run [-2; -2; -2; -2]].
+Definition w_forged2 : list op := w_forged ++ [Cb (CTick 9000000); Run [-2; -2; -2; -2; -2]].
+
+Lemma forged_handle_refuted :
+  let st := run fx_without_chk0 w_forged_beh init0 w_forged in
+  err st = false /\ map t_data (ents (heap st)) = [1; 0] /\ map s_state (slots st) = [LT_ENTRY_ACTIVE; LT_ENTRY_EMPTY] /\
+  In (ENote 2) (out st) /\ err (run fx_without_chk0 w_forged_beh init0 w_forged2) = true.
+Proof. vm_compute. repeat split; tauto. Qed.
+
+Lemma forged_handle_fixed_witness :
+  let st := run fixed w_forged_beh init0 w_forged2 in
+  err st = false /\
+  filter (fun e => match e with ECb _ _ _ => true | _ => false end) (rev (out st)) = [ECb 0 2 2001003; ECb 0 4 16001007].
+Proof. vm_compute. split; reflexivity. Qed.
